@@ -8,6 +8,7 @@ package main
 //   L5 blocking channel operations (inventory + held locks)
 
 import (
+	"encoding/json"
 	"fmt"
 	"go/token"
 	"go/types"
@@ -640,7 +641,51 @@ func ruleL3(c *Ctx, rule string, only func(g guardedBy) bool) {
 		if only != nil && !only(g) {
 			continue
 		}
-		tab[w.Field(g.pkg, g.typ, g.field)] = g
+		f := w.FieldOpt(g.pkg, g.typ, g.field)
+		if f == nil {
+			// the field is gone (replaced by another representation): nothing to guard; what
+			// replaced it is covered by the new-field rule below
+			c.Triv(rule, g.pkg+"."+g.typ, g.field, "-", "field of the reference tree no longer exists")
+			continue
+		}
+		tab[f] = g
+	}
+	// fields that the reference tree does not have, in structs that own a mutex: a field that
+	// is written with one of the struct's own locks held somewhere is guarded by it everywhere
+	// (contradiction rule; the reference inventory tells old from new)
+	var inv refInventory
+	_ = json.Unmarshal(refnamesJSON, &inv)
+	for _, fn := range w.ModFns {
+		w.eachInstr(fn, func(in ssa.Instruction) {
+			fa, ok := in.(*ssa.FieldAddr)
+			if !ok {
+				return
+			}
+			f := fieldOf(fa)
+			if _, known := tab[f]; known || f.Pkg() == nil {
+				return
+			}
+			owner := fieldOwnerName(w, f)
+			if _, inRef := inv.Fields[f.Pkg().Path()+"|"+owner+"|"+f.Name()]; inRef || owner == "?" {
+				return
+			}
+			if _, isRenamed := inv.Fields[f.Pkg().Path()+"|"+owner+"|"+nm(f)]; isRenamed {
+				return
+			}
+			if !fieldAddrIsWritten(fa) {
+				return
+			}
+			if al, ok := rootAddr(fa.X).(*ssa.Alloc); ok && freshUnescapedAt(al, in) {
+				return
+			}
+			prefix := f.Pkg().Name() + "." + owner + "."
+			for cls := range li.mustAt(in) {
+				base := strings.TrimSuffix(strings.TrimSuffix(cls, "/W"), "/R")
+				if strings.HasPrefix(base, prefix) && strings.HasSuffix(cls, "/W") {
+					tab[f] = guardedBy{f.Pkg().Name(), owner, f.Name(), base, "new field, written under this lock at " + w.instrPos(in)}
+				}
+			}
+		})
 	}
 	for _, fn := range w.ModFns {
 		w.eachInstr(fn, func(in ssa.Instruction) {
